@@ -23,13 +23,20 @@ Record variant := mkVar { v_sub : list Z; v_obs : qobs }.
 (* one series of the generated vector: id, labels.Hash(), observed SampleOffset bits *)
 Record srow := mkRow { s_id : Z; s_hash : Z; s_off : Z }.
 
+(* observation of a range query: per step the ids (ascending) of the series that got a point *)
+Inductive robs := RSteps (steps : list (list Z)) | RErr.
+
 Inductive case :=
 | CPair (id : Z) (r off c r2 : Z) (sel_r sel_c sel_r2 : bool)
 | CHash (id : Z) (h : Z) (off : Z)
-| CQuery (id : Z) (r c r2 : Z) (tbl : list srow) (o_r o_c o_r2 : qobs) (vars : list variant).
+| CQuery (id : Z) (r c r2 : Z) (tbl : list srow) (o_r o_c o_r2 : qobs) (vars : list variant)
+(* range query with a step-varying ratio: rs = the ratio at each step, cs = Go's rs[k] - 1;
+   every series of tbl has a sample at every step *)
+| CRange (id : Z) (rs cs : list Z) (tbl : list srow) (o_r o_c : robs).
 
 Definition c_id (c : case) : Z :=
-  match c with CPair id _ _ _ _ _ _ _ => id | CHash id _ _ => id | CQuery id _ _ _ _ _ _ _ _ => id end.
+  match c with CPair id _ _ _ _ _ _ _ => id | CHash id _ _ => id | CQuery id _ _ _ _ _ _ _ _ => id
+  | CRange id _ _ _ _ _ => id end.
 
 (* ---------- small helpers ---------- *)
 Fixpoint zlist_eqb (a b : list Z) : bool :=
@@ -61,6 +68,26 @@ Definition model_query (tbl : list srow) (f : float) (ids : list Z) : qobs :=
   | ErrNaN => QErr
   end.
 
+Fixpoint zll_eqb (a b : list (list Z)) : bool :=
+  match a, b with
+  | [], [] => true
+  | x :: a', y :: b' => zlist_eqb x y && zll_eqb a' b'
+  | _, _ => false
+  end.
+Definition robs_eqb (a b : robs) : bool :=
+  match a, b with
+  | RSteps x, RSteps y => zll_eqb x y
+  | RErr, RErr => true
+  | _, _ => false
+  end.
+
+(* the model's answer for a range query: one ratio per step, the same vector at every step *)
+Definition model_range (tbl : list srow) (fs : list float) (ids : list Z) : robs :=
+  match limit_ratio_range Z unit (lookup_hash tbl) fs (map (fun _ => map (fun i => (i, tt)) ids) fs) with
+  | RSelected st => RSteps (map (map fst) st)
+  | RErrNaN => RErr
+  end.
+
 Definition in01 (f : float) : bool := PrimFloat.leb zero f && PrimFloat.leb f one.
 
 (* ---------- agree: model vs implementation, bit for bit ---------- *)
@@ -82,6 +109,13 @@ Definition agree (c : case) : bool :=
       qobs_eqb (model_query tbl (float_of_bits cc) ids) o_c &&
       qobs_eqb (model_query tbl (float_of_bits r2) ids) o_r2 &&
       forallb (fun v => qobs_eqb (model_query tbl fr (v_sub v)) (v_obs v)) vars
+  | CRange _ rs cs tbl o_r o_c =>
+      let frs := map float_of_bits rs in let fcs := map float_of_bits cs in
+      let ids := map s_id tbl in
+      zlist_eqb (map (fun f => bits_of_float (complement f)) frs) (map bits_of_float fcs) &&
+      forallb (fun row => bits_of_float (sample_offset (s_hash row)) =? s_off row) tbl &&
+      robs_eqb (model_range tbl frs ids) o_r &&
+      robs_eqb (model_range tbl fcs ids) o_c
   end.
 
 (* ---------- holds: the property statement on the implementation's own output ----------
@@ -117,6 +151,19 @@ Definition holds (c : case) : bool :=
             forallb (fun v => match v_obs v with
                               | QSel s => zlist_eqb s (filter (fun i => zmem i a) (v_sub v))
                               | QErr => false end) vars
+        | _, _ => false
+        end
+      else true
+  | CRange _ rs _ tbl o_r o_c =>
+      (* every step's ratio in [0,1]: at every step the two selections partition the vector *)
+      let ids := map s_id tbl in
+      if forallb (fun r => in01 (float_of_bits r)) rs then
+        match o_r, o_c with
+        | RSteps sa, RSteps sb =>
+            (Z.of_nat (length sa) =? Z.of_nat (length rs)) && (Z.of_nat (length sb) =? Z.of_nat (length rs)) &&
+            forallb (fun ab => let a := fst ab in let b := snd ab in
+                       forallb (fun i => xorb (zmem i a) (zmem i b)) ids && subset a ids && subset b ids)
+                    (combine sa sb)
         | _, _ => false
         end
       else true
